@@ -478,3 +478,6 @@ MASK_INIT = "                mask_list = []\n"
 RUNMASK = "                mask_list = []\n                run_mask = ''.join('U' if letter.isupper() else 'L' for letter in section[0][start_pos:end_pos + 1])\n"
 add('C03', 'run-mask-cut-from-zero', ALPHA, [(MASK_INIT, RUNMASK), (MASK_LOOP, "                    mask_list.append(run_mask[:len(word)])\n")], None, 'fire', 'C03.R2')
 add('C03', 'run-mask-cut-at-word *', ALPHA, [(MASK_INIT, RUNMASK), (MASK_LOOP, "                    mask_list.append(run_mask[current_start - start_pos:current_start - start_pos + len(word)])\n")], None, 'silent')
+FOLD = "        prob = base_prob\n\n        for item in pt:\n            pt_type = item[0]\n            index = item[1]\n            prob *= self.grammar[pt_type][index]['prob']\n\n        return prob"
+add('*', 'findprob-as-reduce', PGF, [("import random\n", "import random\nimport operator\nfrom functools import reduce\n"), (FOLD, "        return reduce(operator.mul, (self.grammar[item[0]][item[1]]['prob'] for item in pt), base_prob)")], None, 'silent')
+add('C01', 'findprob-as-reduce-from-one', PGF, [("import random\n", "import random\nimport operator\nfrom functools import reduce\n"), (FOLD, "        return reduce(operator.mul, (self.grammar[item[0]][item[1]]['prob'] for item in pt), 1.0)")], None, 'fire', 'C01.R3')
